@@ -85,3 +85,66 @@ check("C14", "L", "fault_enumeration", "offline checker over recorded multi-proc
       "process pairs and lock intervals actually compared); the fault space is enumerated.",
       "Trusted: the kernel's fcntl/lockf semantics and a system-wide monotonic clock; recorded lock intervals are subsets of the real hold "
       "intervals; remote transports (which have no locking) are outside.", "DESIGN.md §3 C14")
+
+ENGINES.append({"name": "T", "path": "vlib/travsim.py, vlib/vclock.py, vlib/oracles_trav.py, vlib/travgen.py, checks/travprop.py",
+                "serves_properties": ["C01", "C02", "C03", "C04", "C05", "C08", "C10"],
+                "kind_free_text": "traversal simulator: the real parsing, traverse_object_trees and run_test_node on a virtual-time asyncio loop; "
+                                  "seams replaced: run_test_task (store-model test execution), remote door (runs the real check/get/unset_states "
+                                  "on in-memory backends under the real SourcedStateBackend), wait_for_login; offline oracles over the event log"})
+ENGINES.append({"name": "G", "path": "vlib/suitegen.py", "serves_properties": ["C01", "C02", "C03", "C04", "C05", "C06", "C07", "C08", "C09", "C10"],
+                "kind_free_text": "generator of complete mini test suites with a drawn, known setup DAG (multi-object leaves, multi-producer groups, "
+                                  "removable states, restricted workers)"})
+ENGINES.append({"name": "P", "path": "vlib/graphsnap.py, checks/parseprop.py", "serves_properties": ["C06", "C07", "C09"],
+                "kind_free_text": "parse checker: canonical description of eagerly and lazily parsed graphs; structural, declared-dependency and "
+                                  "copy/bridging/lazy-vs-eager oracles"})
+
+_T_NOTE = ("Trusted: the harness's store model of what a test does to states (a test finds a state iff it is in a listed location whose scope is "
+           "enabled, and saves its states into the executing worker's own pool on PASS/WARN), virtual time, and generated suites parsed by the "
+           "real Cartesian parser. Interleavings are sampled, not enumerated; evidence reports distinct interleaving signatures.")
+
+check("C01", "T", "exploration", "offline checker over the simulated traversal's event log: every execution start is checked against a store model (exists in a listed + permitted location?), with the stated exceptions",
+      "The real traversal of 1-5 workers (lxc, remote clusters, serial, restricted workers) runs on generated suites and shipped selections "
+      "under random virtual durations, failing-test placements, pool scopes and initial pool populations incl. the residue of a run "
+      "interrupted at a random instant; at each test start every non-root required state must be present in a location the test names "
+      "and may use, unless its producer was attempted and did not pass or the object is permanent.", _T_NOTE, "DESIGN.md §3 C01")
+check("C02", "T", "exploration", "bounded-progress monitor on the virtual-time loop (deadlock detector, iteration budget) + end-state audit of selected tests",
+      "Termination is decided on logical steps: a loop in which every task waits with no pending timer is a deadlock, an iteration budget "
+      "marks runaway cases inconclusive; any exception out of the gathered traversals is a violation; at the end every selected test that "
+      "some worker can compose was executed (or reused) and carries no pending status; dry runs execute nothing and change nothing. The family "
+      "'exactly one class or creation step fails persistently' is cycled through all classes of each graph.", _T_NOTE, "DESIGN.md §3 C02")
+check("C03", "T", "exploration", "offline counting of executions per (worker-invariant class, reuse scope) + first-examination clause from door events",
+      "Executions are grouped by class key and harness-computed reuse scope (worker / swarm / run) and compared with the retry budget; the "
+      "two-step creation is merged into one execution; a setup test whose states were all present when first examined must not run in that "
+      "scope; flat tests and clone sources must never execute. Workloads stress ties and epsilon-ties between workers.", _T_NOTE,
+      "DESIGN.md §3 C03")
+check("C04", "T", "exploration", "interval sweep over execution start/end sequence numbers per (class, scope); back-off length check",
+      "Maximal overlap of executions per class and scope must stay within max_concurrent_tries (runs where an execution outlasts its timeout "
+      "budget are excluded from the overlap clause as the property states); every back-off sleep has the documented length.", _T_NOTE,
+      "DESIGN.md §3 C04")
+check("C05", "T", "exploration", "offline checker relating every state removal / unset request to the executions that use that copy of the state",
+      "Every removal is related to the dependants that use that copy (tests of the owning worker, or tests told to fetch from that pool with an "
+      "enabled scope): none may be running or still pending; states not marked for removal are never unset or removed; with pool_filter "
+      "reuse/block nothing is copied while backing out.", _T_NOTE, "DESIGN.md §3 C05")
+check("C08", "T", "exploration", "oracle at every execution start: executing worker, connection parameters, restrictions and listed sources vs producers with a passing result",
+      "At each test start the executing worker must be the one the test was parsed for, with its connection parameters and admitted by its "
+      "restrictions (own evaluation of only/no lines); for every required state the listed non-shared sources must equal the workers with a "
+      "passing result of the producer before that instant (sequence-number exact), the shared pool must be listed and the access parameters "
+      "of every listed worker must be present and correct.", _T_NOTE, "DESIGN.md §3 C08")
+check("C10", "T", "exploration", "decision-table oracle evaluated at every execution start and at quiescence; uid / result-sequence / verdict comparison",
+      "At each execution start the statuses known so far (completed + in-flight + replayed) must allow the try; at the end no try may be "
+      "due; uids are unique and every node's recorded results equal what was reported for its executions; invalid retry settings must "
+      "raise; all_results_ok() is compared with the acceptable-result rule.", _T_NOTE, "DESIGN.md §3 C10")
+_P_NOTE = ("Trusted: the generator's drawn DAG as ground truth for generated suites and a hand-written parent table for the shipped suite; "
+           "virttest's Params for resolving per-object parameters.")
+check("C06", "P", "exploration", "structural invariant checker over canonical descriptions of really parsed graphs (eager and after lazy expansion)",
+      "Acyclicity, single starting node, reachability, two-sided edges with equal object sets, unique identities, exactly one same-worker "
+      "parent producing exactly each required state, one net object first, vms equal to the parameters, clone sources marked non-runnable.",
+      _P_NOTE, "DESIGN.md §3 C06")
+check("C07", "P", "exploration", "comparison of parsed parents with the known (drawn or hand-declared) dependency DAG; clone-per-producer checks",
+      "Every parsed node's parents per vm must equal the declared ones (none missing, spurious or duplicated per worker); dependants of "
+      "several producers must be cloned once per producer with branch-specific state names, and their own dependants consistently.", _P_NOTE,
+      "DESIGN.md §3 C07")
+check("C09", "P", "exploration", "per-worker canonical subgraph comparison, bridge/register identity check, lazy-vs-eager and parse-twice comparison",
+      "Per-worker copies must have identical dependencies for every class they share; equivalent tests of all workers must be linked "
+      "pairwise and share the same four register objects; after a lazy traversal every expanded test has the parents of the up-front graph "
+      "and every selected compatible leaf was expanded; parsing twice gives the same graph.", _P_NOTE, "DESIGN.md §3 C09")
